@@ -4,41 +4,8 @@ From Coq Require Import List Arith Lia Bool ZArith.
 Import ListNotations.
 From Exmex.Model Require Import Base EvalBinary Lexer Flat.
 From Exmex.Spec Require Import RefSem.
-From Exmex.Proofs Require Import ChainMachine SortedRef EvalBinaryCorrect FlatEval Pev FlStruct FlSem FlVals WalkSim BumpInst Vars.
+From Exmex.Proofs Require Import ChainMachine SortedRef EvalBinaryCorrect FlatEval Pev FlStruct FlSem FlVals WalkSim BumpInst Vars FlatPev.
 Open Scope nat_scope.
-
-(* ref_val only looks at the operators and keys of the ids that occur in the list *)
-Section RefValExt.
-Context {D : Type}.
-Lemma root_of_ext (key key' : nat -> Z) : forall (tl : pairs D) best,
-  (forall i, In i (best :: map fst tl) -> key i = key' i) -> @root_of D key tl best = @root_of D key' tl best.
-Proof.
-  induction tl as [|[j y] tl IH]; intros best H; [reflexivity|]. cbn [root_of].
-  assert (E : later key best j = later key' best j).
-  { unfold later. rewrite (H best (or_introl eq_refl)), (H j (or_intror (or_introl eq_refl))). reflexivity. }
-  rewrite E. apply IH. intros i Hi. apply H. destruct (later key' best j); cbn in *; intuition.
-Qed.
-Lemma split_at_ids : forall (l : pairs D) r l1 y l2, @split_at D r l = Some (l1, y, l2) ->
-  (forall i, In i (map fst l1) -> In i (map fst l)) /\ (forall i, In i (map fst l2) -> In i (map fst l)) /\ In r (map fst l).
-Proof.
-  induction l as [|[j z] tl IH]; intros r l1 y l2 H; [discriminate|]. cbn [split_at] in H.
-  destruct (Nat.eqb_spec r j) as [->|Hne].
-  - inversion H; subst. cbn. intuition.
-  - destruct (split_at r tl) as [[[l1' y'] l2']|] eqn:E; [|discriminate]. inversion H; subst.
-    destruct (IH _ _ _ _ E) as (H1 & H2 & H3). cbn. repeat split; intros; intuition.
-Qed.
-Lemma ref_val_ext (opf opf' : nat -> D -> D -> D) (key key' : nat -> Z) : forall n x (l : pairs D),
-  (forall i, In i (map fst l) -> key i = key' i /\ forall a b, opf i a b = opf' i a b) ->
-  @ref_val D opf key n x l = @ref_val D opf' key' n x l.
-Proof.
-  induction n as [|n IH]; intros x l H; [reflexivity|].
-  destruct l as [|[j z] tl]; [reflexivity|]. cbn [ref_val].
-  rewrite (root_of_ext key key' tl j) by (intros i Hi; apply H; exact Hi).
-  destruct (split_at (root_of key' tl j) ((j, z) :: tl)) as [[[l1 y] l2]|] eqn:E; [|reflexivity].
-  destruct (split_at_ids _ _ _ _ _ E) as (H1 & H2 & H3).
-  rewrite (proj2 (H _ H3)). rewrite (IH x l1), (IH y l2); [reflexivity| |]; intros i Hi; apply H; auto.
-Qed.
-End RefValExt.
 
 Section Main.
 Context {D : Type}.
@@ -134,23 +101,6 @@ Proof.
   rewrite Hn. cbn [bind]. rewrite IH by (intros m i Hin; apply Hok; right; exact Hin). reflexivity.
 Qed.
 
-(* list algebra: the records of a contiguous chain *)
-Lemma map_nth_combine {A B} (d1 : A) (d2 : B) : forall (l : list A) (m : list B) off, length m = length l ->
-  map (fun j => (nth (j - off) l d1, nth (j - off) m d2)) (seq off (length l)) = combine l m.
-Proof.
-  induction l as [|a l IH]; intros m off Hl; [reflexivity|]. destruct m as [|b m]; [discriminate|].
-  cbn [length seq map combine]. rewrite Nat.sub_diag. cbn [nth]. f_equal.
-  rewrite <- (IH m (S off)) by (cbn in Hl; lia).
-  apply map_ext_in. intros j Hj. apply in_seq in Hj. replace (j - off) with (S (j - S off)) by lia. reflexivity.
-Qed.
-Lemma to_recs_chain_from (ops : list fop) (x : D) (rest : list D) (dummy : fop) : length rest = length ops ->
-  to_recs (fun i => nth i ops dummy) (chain_from D (EvalBinaryCorrect.vals_of D (dflt C) (x :: rest)) 0 (length ops)) = combine ops rest.
-Proof.
-  intros Hl. unfold to_recs, chain_from. rewrite map_map. cbn [fst snd].
-  rewrite <- (map_nth_combine dummy (dflt C) ops rest 0 Hl).
-  apply map_ext. intros j. rewrite Nat.sub_0_r. reflexivity.
-Qed.
-
 (* ---- the main theorem ---- *)
 Theorem flat_parse_is_reference (c : chain (D:=D)) (text : str) :
   wf_chain tb c = true -> vars_in_atom vars (fst c) -> vars_in_rest vars (snd c) ->
@@ -215,7 +165,7 @@ Proof.
         destruct (nth_error ops i) as [o|] eqn:En; [|apply nth_error_None in En; lia].
         unfold BumpInst.key0, op_at. rewrite En. rewrite (nth_error_nth _ _ dummy En). split; [reflexivity|reflexivity]. }
     rewrite (ref_val_is_pev C (fun i => nth i ops dummy) (length ops) x l 0) by (unfold l; apply chain_from_inc).
-    unfold l. rewrite (to_recs_chain_from ops x restv dummy Hlr).
+    unfold l. rewrite (to_recs_chain_from C ops x restv dummy Hlr).
     (* the values of the structural image, then the reference semantics *)
     unfold FlVals.vals_of in Hvals. cbn [fst snd] in Hvals. fold x in Hvals. fold restv in Hvals.
     destruct (pv_sem C tb vars vals Hwf_tb (asize a0 + rsize rest)) as [_ Hsem].
